@@ -12,6 +12,12 @@ import QV.Model.Decopt
   `QV.C12.accepted_xonly`)
   (`sections[k].exprs` = the simplified expressions the real run handed to `exprs_to_quantum` for
   the section starting at `start`, `choices` = the ancillas popped during that re-synthesis)
+  optional `narrow: true` (the harness sets it from 10 qubits on): `ok`, `simp_ok` and `validated` are computed on
+  the assignments of the qubits the section involves (wires of old and new gates, keys and symbols of the logged
+  and the decompiled expressions; all other qubits 0) instead of all `2^n` basis states - all of them when at most
+  11 qubits are involved, otherwise 0..0, 1..1, weight 1, co-weight 1 and 300 fixed pseudo-random ones.  This is
+  driver code, not the proved validator `sectionOKb` (gates and expressions cannot depend on or change a qubit
+  they do not mention, so on at most 11 involved qubits it decides the same thing).
 `c12.simplify` {expr, table:[[in,out]]} -> {out} | {error}: `custom_simplify_logic2` with
   `simplify_logic` = the logged table
 -/
@@ -40,11 +46,49 @@ def simpOk (n : Nat) (s : Section) (logged : List (String × BExp)) : Bool :=
   logged.all (fun p => (symbols n).contains p.1) && (logged.map (·.1)).eraseDups.length == logged.length &&
   truthTable (symbols n) (fullExps n logged) == truthTable (symbols n) (fullExps n s.exps)
 
+/-! ### wide circuits: the per-section checks on the qubits a section involves -/
+
+def involved (n : Nat) (s : Section) (new : List AGate) (logged : List (String × BExp)) : List Nat :=
+  let ws := wiresOf s.gates ++ wiresOf new
+  let names := (logged ++ s.exps).flatMap fun p => p.1 :: p.2.syms
+  (List.range n).filter fun i => ws.contains i || names.contains (qname i)
+
+/-- `k` as an assignment of the qubits `qs` of an `n`-qubit register (the others 0) -/
+def stateOn (n : Nat) (qs : List Nat) (k : Nat) : BState :=
+  (List.range n).map fun i => match qs.idxOf? i with | some b => k.testBit b | none => false
+
+def sampleKeys (m : Nat) : List Nat :=
+  if m ≤ 11 then List.range (2 ^ m)
+  else
+    let full := 2 ^ m - 1
+    let rnd := (List.range 300).foldl (fun (acc : List Nat × Nat) _ =>
+      let x := (acc.2 * 6364136223846793005 + 1442695040888963407) % (2 ^ 64)
+      ((x / 2 ^ 13) % (2 ^ m) :: acc.1, x)) ([], 88172645463325252 + m)
+    [0, full] ++ (List.range m).map (fun i => 2 ^ i) ++ (List.range m).map (fun i => full - 2 ^ i) ++ rnd.1
+
+def statesOn (n : Nat) (qs : List Nat) : List BState := (sampleKeys qs.length).map (stateOn n qs)
+
+def envOfState (n : Nat) (st : BState) : Env := fun nm =>
+  match qidx n nm with | some i => st.getD i false | none => false
+
+def sectionOKOn (n : Nat) (qs : List Nat) (old new : List AGate) : Bool :=
+  new.all (fun g => (g.cls.isMCXLike || g.cls.isNop) && decide g.wires.Nodup) &&
+  (statesOn n qs).all fun st => runClassical new st == runClassical old st
+
+def simpOkOn (n : Nat) (qs : List Nat) (s : Section) (logged : List (String × BExp)) : Bool :=
+  let pick (d : List (String × BExp)) (i : Nat) : BExp :=
+    match d.find? (fun p => p.1 == qname i) with | some p => p.2 | none => .sym (qname i)
+  logged.all (fun p => (symbols n).contains p.1) && (logged.map (·.1)).eraseDups.length == logged.length &&
+  (statesOn n qs).all fun st =>
+    let ρ := envOfState n st
+    qs.all fun i => (pick logged i).eval ρ == (pick s.exps i).eval ρ
+
 def optimizeOp (j : Json) : R Json := do
   let n ← j.getObjValAs? Nat "n"
   let gs ← parseGates (← j.getObjVal? "gates")
   let q := getQuirks j
   let logs ← (← (← j.getObjVal? "sections").getArr?).toList.mapM parseSecLog
+  let narrow : Bool := (j.getObjValAs? Bool "narrow").toOption.getD false
   let find (s : Section) : Option SecLog := logs.find? (fun l => l.start == s.start)
   let resyn (s : Section) : Except String SecResult :=
     match find s with
@@ -63,12 +107,21 @@ def optimizeOp (j : Json) : R Json := do
           Json.mkObj [("start", toJson s.start), ("stop", toJson s.stop), ("old", gatesJ s.gates),
             ("new", gatesJ r.gates), ("qmap", Comp.qmapJ r.qmap), ("num_qubits", toJson r.numQubits),
             ("accepted", toJson (accept q n s r)), ("stable", toJson (nameStable n r.qmap)),
-            ("ok", toJson (sectionOKb n s.gates r.gates)),
-            ("simp_ok", toJson (match find s with | some l => simpOk n s l.exprs | none => false)),
+            ("ok", toJson (if narrow then
+                sectionOKOn n (involved n s r.gates ((find s).map (·.exprs) |>.getD [])) s.gates r.gates
+              else sectionOKb n s.gates r.gates)),
+            ("simp_ok", toJson (match find s with
+              | some l => if narrow then simpOkOn n (involved n s r.gates l.exprs) s l.exprs else simpOk n s l.exprs
+              | none => false)),
             ("keys_ok", toJson (match find s with | some l => keysOK n l.exprs | none => false)),
             ("xonly", toJson (match find s with | some l => xonly n l.exprs r.gates | none => false))]
       pure (Json.mkObj [("gates", gatesJ out), ("sections", Json.arr (secs.map secJ).toArray),
-        ("validated", toJson (validated q n resyn secs)),
+        ("validated", toJson (if narrow then
+            secs.all fun s => match resyn s with
+              | .ok r => !accept q n s r ||
+                  sectionOKOn n (involved n s r.gates ((find s).map (·.exprs) |>.getD [])) s.gates r.gates
+              | .error _ => true
+          else validated q n resyn secs)),
         ("triggers", toJson (Decopt.triggers q n resyn secs)),
         ("unused_logs", toJson ((logs.filter fun l => !(secs.any fun s => s.start == l.start)).map (·.start)))])
 
